@@ -251,12 +251,19 @@ def reference(case):
             "sent": sent, "failed": failed, "inject": inject, "final_checked": not (inject and case["end"] == "commit")}
 
 
-def model_lines(case, ref):
+def model_lines(case, ref, res=None):
     """the transaction as ops of the Pipelined model; flushwait lines carry the outcome python expects the client to
     report (compared by modelrun), the wait-outcome 0 marks the flush the store is expected to reject"""
     L = ["CASE\t%s\t0\t0\t0" % case["id"]]
     cmpr = not ref["inject"]
     failed, cur_ins, pre = False, set(), {k for k, _ in case["pre"]}
+    # keep-alive state observed after every flush op (compared with the model's tmrun), and at the flush the store rejected
+    rs = (res or {}).get("results") or []
+    tms = [r.get("ttl_running") for o, r in zip(case["ops"], rs) if o[0] == "flush"] if case["mode"] == "txn" else []
+    tm_at_fail = False
+    if ref["failed"] and any(e is True for e in ref["operr"]):
+        i0 = ref["operr"].index(True)
+        tm_at_fail = i0 < len(rs) and rs[i0].get("ttl_running") is True
 
     def fl(wait):
         nonlocal failed, cur_ins
@@ -266,7 +273,13 @@ def model_lines(case, ref):
         if rejects:
             failed = True
         if wait:
+            if rejects and tm_at_fail:
+                L.append("OP\ttmstart")      # the batch holding the primary had been acknowledged before the flush failed (observed)
             L.append("OP\tflushwait\t%s%s" % ("0" if rejects else "1", ("\t=>\t" + ("err" if failed else "ok")) if cmpr else ""))
+            if cmpr and tms:
+                t = tms.pop(0)
+                if t is not None:
+                    L.append("OP\ttm\t=>\t%d" % (1 if t else 0))
         elif rejects:
             L.append("OP\tcomplete\t0")
     for op in case["ops"]:
@@ -281,9 +294,12 @@ def model_lines(case, ref):
         elif op[0] == "flushnw":
             fl(False)
     if case["mode"] == "probe" or case["end"] == "commit":
+        tms = []
         fl(True)
     else:
         L.append("OP\tflushwait\t1")
+    if case["mode"] == "txn" and case["end"] in ("commit", "rollback") and res is not None and cmpr:
+        L += ["OP\tend", "OP\ttm\t=>\t%d" % (1 if res.get("ttl_running_end") else 0)]
     L.append("END\t%s" % case["id"])
     return L
 
@@ -463,7 +479,7 @@ def run_model(modelrun, cases, results):
     """-> {id: {"final": (pstart, pend, flushedkeys, flog, primary), "regions": [...], "mismatch": [...], "served": bool}}"""
     lines = []
     for c in cases:
-        lines += model_lines(c, reference(c))
+        lines += model_lines(c, reference(c), results.get(c["id"]))
     rc, out = vlib.sh([modelrun], inp="\n".join(lines) + "\n", timeout=600)
     M = {c["id"]: {} for c in cases}
     for l in out.splitlines():
